@@ -319,6 +319,13 @@ qb_ipcs_shm_rb_open(struct qb_ipcs_connection *c,
 		qb_util_perror(LOG_ERR, "qb_rb_open:%s", rb_name);
 		return res;
 	}
+	/* created 0600 and ours: drop what the authorised mode does not have
+	 * before the files change hands, widen afterwards */
+	res = qb_rb_chmod(ow->u.shm.rb, c->auth.mode & (S_IRUSR | S_IWUSR));
+	if (res != 0) {
+		qb_util_perror(LOG_ERR, "qb_rb_chmod:%s", rb_name);
+		goto cleanup;
+	}
 	res = qb_rb_chown(ow->u.shm.rb, c->auth.uid, c->auth.gid);
 	if (res != 0) {
 		qb_util_perror(LOG_ERR, "qb_rb_chown:%s", rb_name);
@@ -342,8 +349,6 @@ qb_ipcs_shm_connect(struct qb_ipcs_service *s,
 		    struct qb_ipc_connection_response *r)
 {
 	int32_t res;
-	char dirname[PATH_MAX];
-	char *slash;
 
 	qb_util_log(LOG_DEBUG, "connecting to client [%d]", c->pid);
 
@@ -353,14 +358,6 @@ qb_ipcs_shm_connect(struct qb_ipcs_service *s,
 		 c->description, s->name);
 	snprintf(r->event, NAME_MAX, "%s-event-%s",
 		 c->description, s->name);
-
-	/* Set correct ownership if qb_ipcs_connection_auth_set() has been used */
-	strlcpy(dirname, c->description, sizeof(dirname));
-	slash = strrchr(dirname, '/');
-	if (slash) {
-		*slash = '\0';
-		(void)chown(dirname, c->auth.uid, c->auth.gid);
-	}
 
 	res = qb_ipcs_shm_rb_open(c, &c->request,
 				  r->request);
